@@ -73,9 +73,14 @@ def gen(rng, tier):
         lines.append(L.stream_line(pid, items, "ser.pkts"))
         pids.append(pid); itemss.append(items)
     pkt_lists = vlib.run_model(lines)
+    hyps = vlib.run_model(["spec.hyp.filter %d %s %d %d %s" % (c["pf"], fmt_val(L.fmt_section(c["sec"])), c["stuffing"], pid, fmt_val(items))
+                           for c, pid, items in zip(carriers, pids, itemss)])
     out.append(Case("pmt.filter [ ] [ 1 2 ]", kind="no-packets", theorem="C14_filter_no_packets"))
-    for c, p, pl, pid, items in zip(carriers, payloads, pkt_lists, pids, itemss):
+    for c, p, pl, pid, items, h in zip(carriers, payloads, pkt_lists, pids, itemss, hyps):
         pl_req = pl.replace("[", "[ ").replace("]", " ]")
+        if h != "1":    # hyp_filterb of the Coq spec rejects the case: generator drift, nothing decided here
+            out.append(Case("pmt.filter %s [ 0 ]" % pl_req, kind="hyp-false", decides=False, nontrivial=False))
+            continue
         choices = pid_lists(rng, c, pid)
         if quick:
             keep = [x for x in choices if x[0] in ("empty", "all")] + rng.sample(choices, min(6, len(choices)))
